@@ -81,10 +81,7 @@ func (c *chain) forgeries(r *hx.Rng) map[string][]byte {
 	out := map[string][]byte{}
 	advPriv, advPub := bm.DetKey(2)
 	gaddr := types.KeyAddress(c.pub)
-	var any *types.SignedHeader
-	for _, sh := range c.shs {
-		any = sh
-	}
+	any := c.shs[c.top] // deterministic choice (map order is not)
 	if any == nil {
 		return out
 	}
@@ -134,11 +131,17 @@ func (c *chain) forgeries(r *hx.Rng) map[string][]byte {
 	sd2 := types.SignedData{Data: d2, Signature: sg2, Signer: types.Signer{PubKey: advPub, Address: gaddr}}
 	out["data-foreign-key-no-metadata"], _ = sd2.MarshalBinary()
 	// 7 genuine data with a broken signature; data under a foreign address
-	for _, b := range c.dat {
-		m := append([]byte(nil), b...)
+	var firstDat []byte
+	for h := c.ih; h <= c.top; h++ {
+		if b, ok := c.dat[h]; ok {
+			firstDat = b
+			break
+		}
+	}
+	if firstDat != nil {
+		m := append([]byte(nil), firstDat...)
 		m[len(m)/2] ^= 0x40
 		out["data-corrupted"] = m
-		break
 	}
 	sd3 := types.SignedData{Data: d, Signature: sg, Signer: types.Signer{PubKey: advPub, Address: types.KeyAddress(advPub)}}
 	out["data-foreign-address"], _ = sd3.MarshalBinary()
@@ -199,7 +202,8 @@ func (c *chain) forgeries(r *hx.Rng) map[string][]byte {
 	out["hdr-key-type-foreign-then-ed25519"] = rawHdr(&gh, gsig, gaddr, pkBytes(uint64(5), uint64(1), graw))
 	out["hdr-key-type-ed25519-then-unknown"] = rawHdr(&gh, gsig, gaddr, pkBytes(uint64(1), uint64(5), graw))
 	// 12 a key of another type (secp256k1): under the proposer's address, and self-consistently under its own
-	sPriv, sPub, _ := crypto.GenerateSecp256k1Key(bytes.NewReader(bytes.Repeat([]byte{3}, 64)))
+	sPriv, _ := crypto.UnmarshalSecp256k1PrivateKey(bytes.Repeat([]byte{3}, 32)) // fixed key, RFC 6979 signatures
+	sPub := sPriv.GetPublic()
 	skey, _ := crypto.MarshalPublicKey(sPub)
 	saddr := types.KeyAddress(sPub)
 	f12 := *any
@@ -210,12 +214,11 @@ func (c *chain) forgeries(r *hx.Rng) map[string][]byte {
 	out["hdr-secp256k1-self-consistent-foreign"] = rawHdr(&f12b.Header, sign(&f12b.Header, sPriv), saddr, skey)
 	// 13 the same for signed data
 	var gd *types.SignedData
-	for _, b := range c.dat {
+	if firstDat != nil {
 		x := new(types.SignedData)
-		if x.UnmarshalBinary(b) == nil {
+		if x.UnmarshalBinary(firstDat) == nil {
 			gd = x
 		}
-		break
 	}
 	if gd != nil {
 		out["data-right-key-wrong-address-field"] = rawDat(&gd.Data, gd.Signature, aaddr, gkey)
